@@ -198,6 +198,30 @@ func runC05(c *Ctx) {
 	}
 	ls := c.ComputeLocksets(c.clientFuncs())
 	c.snapshotRule("R5", ls, "client.hSet.RWMutex")
+	// R1 also needs the internal dispatch to have joined its handlers when it returns (shared with C03.R3)
+	c.dispatchJoinRule("R1")
+}
+
+// dispatchJoinRule: every goroutine started below hSet.dispatch is joined before dispatch returns.
+func (c *Ctx) dispatchJoinRule(rule string) {
+	r, a := c.R, c.A
+	region := c.Closure([]*ssa.Function{a.SetDispatch}, func(from *ssa.Function, e Edge) bool { return !e.Site.Common().IsInvoke() })
+	nJoin := 0
+	for _, fn := range region.Order {
+		if !c.InModuleFn(fn) {
+			continue
+		}
+		funcInstrs(fn, func(in ssa.Instruction) {
+			if g, ok := in.(*ssa.Go); ok {
+				j, why := c.JoinedGo(g)
+				if j {
+					nJoin++
+				}
+				r.Add(rule, "go:"+c.FuncKey(fn), c.InstrPos(g), c.FuncKey(fn), "goroutine started on the dispatch path is joined before dispatch returns", j, why)
+			}
+		})
+	}
+	r.Floor(rule, "joined per-handler goroutine", nJoin, 1)
 }
 
 // rangeValuesOnlyTo: every value extracted from the range iterator flows
